@@ -293,6 +293,19 @@ func (r *Report) Case(desc interface{}, nontrivialKey string, run func() []Findi
 	}
 }
 
+// Guard implements the crash protocol for checks that do not go through Case: it returns false when this
+// case aborted the process in an earlier attempt of the shard (the recorded violation is reported), and
+// otherwise publishes the case as the one being executed.
+func (r *Report) Guard(desc interface{}) bool {
+	ck := Hash(CanonJSON(desc))
+	if c, ok := crashed()[ck]; ok {
+		r.Violate(c.Key, c.Msg, desc)
+		return false
+	}
+	publishCurrent(ck, desc)
+	return true
+}
+
 type crashRec struct {
 	Case string `json:"case"`
 	Key  string `json:"key"`
